@@ -14,6 +14,7 @@ import fsic.fortran
 from fsic.exceptions import FortranEngineError, NonConvergenceError, SolutionError
 from pyvc import values as V
 from pyvc.contracts import Call, FunctionContract
+from pyvc.ctx import OutOfSubset
 from pyvc.interp import PyRaise, exc_class
 from pyvc.libspec import A
 from pyvc.values import BOOL, F64, INT, STR, SArr, SBool, SExc, SFloat, SInt, SObj, SSeq, SStr, VarStore, norm_index
@@ -213,3 +214,171 @@ class FortranEvaluate(FunctionContract):
 
 
 CONTRACTS = [FortranSolveT(), FortranEvaluate()]
+
+
+class FortranSolve(FunctionContract):
+    """FortranEngine.solve over a range of two periods (positions 1 and 2 of a four-period span, the default range of a model with one lag and
+    one lead), against an assumed contract of the compiled ENGINE.solve (per period: converged flag, iteration count, error code).  What is
+    handed over (one-based periods, one-based check rows, option codes, limits) and, period by period in order, how the returned codes become
+    statuses, iteration counts, solved flags and exceptions - exactly as the Python solver would record them; after an exception the later
+    period is untouched."""
+    qualname = 'fsic.fortran.FortranEngine.solve'
+    props = ('C07',)
+    required_covers = ('returned', 'raised-first', 'raised-second', 'value-error')
+
+    def scenarios(self):
+        return ['default-range', 'explicit-range']
+
+    def setup(self, interp, scenario):
+        ctx = interp.ctx
+        env = make_model(interp, _F, with_lags=True)
+        obj = env.obj
+        ctx.assume(z3.And(env.n == 4, env.lags == 1, env.leads == 1))
+        ctx.assume(z3.Distinct(*[z3.Select(env.span.arr, p) for p in range(4)]))      # period labels are pairwise distinct
+        obj.fields['names'] = list(_F.NAMES)
+        obj.fields['check'] = list(_F.CHECK)
+        obj.fields['endogenous'] = list(_F.ENDOGENOUS)
+        obj.known_vars = tuple(_F.NAMES)
+        e = {'env': env, 'engine_calls': [], 'values_set': [], 'scenario': scenario}
+        for k, srt in (('min_iter', INT), ('max_iter', INT), ('offset', INT), ('tol', F64), ('failures', STR), ('errors', STR)):
+            e[k] = ctx.fresh(k, srt)
+        ctx.assume(z3.Or(*[e['failures'] == S(x) for x in ('raise', 'ignore')]))
+        ctx.assume(z3.Or(*[e['errors'] == S(x) for x in ('raise', 'skip', 'ignore', 'replace')]))
+        e['conv'] = [SBool(ctx.fresh(f'converged{i}', BOOL)) for i in range(2)]
+        e['it'] = [SInt(ctx.fresh(f'engine_iteration{i}', INT)) for i in range(2)]
+        e['code'] = [SInt(ctx.fresh(f'error_code{i}', INT)) for i in range(2)]
+        e['inputs'] = {k: e[k] for k in ('min_iter', 'max_iter', 'offset', 'errors', 'failures')}
+        for i in range(2):
+            e['inputs'][f'error_code{i}'] = e['code'][i].e
+        values_token, out_values = object(), object()
+        e['values_token'], e['out_values'] = values_token, out_values
+
+        class Values:
+            def astype(self_, dt):
+                return values_token
+
+        class Engine:
+            class solve:
+                @staticmethod
+                def vc_call(interp_, args, kwargs, node):
+                    ctx.use(A('fortran.ENGINE.solve', 'the compiled solve returns (values, converged[], iteration[], error_code[]) with one entry per requested period, '
+                                                      'per the error-code table of the template; exercised by the bounded differential (gfortran + ctypes)'))
+                    e['engine_calls'].append(list(args))
+                    return (out_values, list(e['conv']), list(e['it']), list(e['code']))
+        obj.fields['ENGINE'] = Engine
+
+        def locate(interp_, o, args, kwargs, node):
+            lab = V.z3_of(args[0])
+            for p in (1, 2):
+                if z3.eq(z3.simplify(lab), z3.simplify(z3.Select(env.span.arr, z3.IntVal(p)))) or z3.eq(z3.simplify(lab), z3.simplify(z3.Select(env.span.arr, env.n - 4 + p))):
+                    return p
+            # the label of position p of the span, however it was spelled
+            for p in (1, 2):
+                if ctx.decide(lab == z3.Select(env.span.arr, p), f'label-is-span[{p}]'):
+                    return p
+            raise OutOfSubset('label outside the two-period range of this contract')
+        interp.registry.set_calls({'fsic.core.interfaces.ModelInterface.values': lambda i_, o, a, k, n_: Values(),
+                                   'fsic.core.containers.VectorContainer._locate_period_in_span': locate,
+                                   'fsic.core.containers.VectorContainer.__getattr__': getattr_contract})
+        orig_setattr = interp.setattr
+
+        def patched_setattr(o, name, v, node=None):
+            if o is obj and name == 'values':
+                e['values_set'].append(v)
+                return None
+            return orig_setattr(o, name, v, node)
+        interp.setattr = patched_setattr
+        kw = dict(min_iter=SInt(e['min_iter']), max_iter=SInt(e['max_iter']), tol=SFloat(e['tol']), offset=SInt(e['offset']), failures=SStr(e['failures']),
+                  errors=SStr(e['errors']))
+        if scenario == 'explicit-range':
+            kw['start'] = SStr(z3.Select(env.span.arr, 1))
+            kw['end'] = SStr(z3.Select(env.span.arr, 2))
+        return Call([], kw, self_obj=obj, entry=e)
+
+    def post(self, interp, scenario, call, out):
+        ctx = interp.ctx
+        e = call.entry
+        env = e['env']
+        E, Fl = e['errors'], e['failures']
+        calls = e['engine_calls']
+        bad_minmax = e['min_iter'] > e['max_iter']
+        if out.kind == 'raise' and not calls:
+            ctx.cover('value-error')
+            ctx.prove(z3.And(z3.BoolVal(exc_class(out.exc) is ValueError), bad_minmax), 'ValueError_only_when_min_iter_exceeds_max_iter_before_the_engine_is_called', 'raises')
+            ctx.prove(z3.And(env.status.arr == env.status0, env.iterations.arr == env.iter0), 'a_rejected_call_records_nothing', 'frame')
+            return
+        ctx.prove(z3.Not(bad_minmax), 'min_iter_exceeding_max_iter_is_rejected', 'raises')
+        ok1 = len(calls) == 1 and len(calls[0]) == 9 and calls[0][0] is e['values_token']
+        ctx.prove(z3.BoolVal(ok1), 'engine_called_once_with_the_model_values_as_float', 'pre-at-call')
+        if not ok1:
+            return
+        a = calls[0]
+        ctx.prove(z3.BoolVal(isinstance(a[1], list) and len(a[1]) == 2) if not (isinstance(a[1], list) and len(a[1]) == 2)
+                  else z3.And(V.to_int_term(a[1][0]) == 2, V.to_int_term(a[1][1]) == 3), 'periods_passed_one_based_in_span_order', 'pre-at-call', note=str(a[1]))
+        ctx.prove(z3.And(V.to_int_term(a[2]) == e['min_iter'], V.to_int_term(a[3]) == e['max_iter'], V.z3_of(a[4]) == e['tol'], V.to_int_term(a[5]) == e['offset']),
+                  'iteration_limits_tolerance_and_offset_passed_unchanged', 'pre-at-call')
+        rows = a[6]
+        ctx.prove(z3.BoolVal(isinstance(rows, list) and rows == [_F.NAMES.index(x) + 1 for x in _F.CHECK]), 'check_variable_rows_are_one_based_positions_in_the_variable_order', 'pre-at-call',
+                  note=str(rows))
+        fcode = z3.If(Fl == S('raise'), z3.IntVal(fsic.fortran.FortranEngine._FAILURE_OPTIONS['raise']), z3.IntVal(fsic.fortran.FortranEngine._FAILURE_OPTIONS['ignore']))
+        ecode = z3.IntVal(-99)
+        for k_, v_ in fsic.fortran.FortranEngine._ERROR_OPTIONS.items():
+            ecode = z3.If(E == S(k_), z3.IntVal(v_), ecode)
+        ctx.prove(z3.And(V.to_int_term(a[7]) == fcode, V.to_int_term(a[8]) == ecode), 'failures_and_errors_options_passed_as_their_codes', 'pre-at-call')
+        ctx.prove(z3.BoolVal(e['values_set'] == [e['out_values']]), 'values_returned_by_the_engine_are_written_back_once', 'ensures')
+
+        conv = [c.e for c in e['conv']]
+        it = [i.e for i in e['it']]
+        code = [c.e for c in e['code']]
+        st = [z3.Select(env.status.arr, p) for p in (1, 2)]
+        its = [z3.Select(env.iterations.arr, p) for p in (1, 2)]
+
+        def recorded(i):
+            """status / iterations the Python solver would record for the engine's report on period i (None: nothing recorded)."""
+            return z3.If(conv[i], S('.'), z3.If(code[i] == 0, S('F'), z3.If(z3.And(code[i] == 21, E == S('raise')), S('E'), z3.If(z3.And(code[i] == 22, E == S('skip')), S('S'), S('?')))))
+
+        def raises(i):
+            return z3.And(z3.Not(conv[i]), z3.Or(z3.And(code[i] == 0, Fl == S('raise')), z3.And(code[i] != 0, z3.Not(z3.And(code[i] == 22, E == S('skip'))))))
+        q = z3.Int('q!fs')
+        others = z3.ForAll([q], z3.Implies(z3.And(q != 1, q != 2), z3.And(z3.Select(env.status.arr, q) == z3.Select(env.status0, q),
+                                                                          z3.Select(env.iterations.arr, q) == z3.Select(env.iter0, q))))
+        ctx.prove(others, 'periods_outside_the_range_keep_their_bookkeeping', 'frame')
+
+        def period_ok(i):
+            rec = recorded(i)
+            return z3.If(rec == S('?'), z3.And(st[i] == z3.Select(env.status0, i + 1), its[i] == z3.Select(env.iter0, i + 1)), z3.And(st[i] == rec, its[i] == it[i]))
+        if out.kind == 'raise':
+            cls = exc_class(out.exc)
+            first = ctx.decide(raises(0), 'post:first-period-raises')
+            i = 0 if first else 1
+            ctx.cover('raised-first' if first else 'raised-second')
+            ctx.prove(raises(i), 'an_exception_only_when_the_engine_reports_a_failure_the_policy_raises_for', 'raises')
+            ctx.prove(period_ok(i), 'the_failing_period_carries_the_status_its_policy_prescribes', 'raises')
+            if first:
+                ctx.prove(z3.And(st[1] == z3.Select(env.status0, 2), its[1] == z3.Select(env.iter0, 2)), 'the_period_after_the_failing_one_is_untouched', 'frame')
+            else:
+                ctx.prove(period_ok(0), 'the_period_before_the_failing_one_keeps_its_outcome', 'ensures')
+            want_cls = z3.If(code[i] == 0, z3.BoolVal(cls is NonConvergenceError),
+                             z3.If(z3.Or(z3.And(code[i] == 21, E == S('raise')), z3.And(code[i] == 31, E == S('raise'))), z3.BoolVal(cls is SolutionError),
+                                   z3.If(z3.Or(code[i] == 41, code[i] == 42), z3.BoolVal(cls is IndexError), z3.BoolVal(cls is FortranEngineError))))
+            ctx.prove(want_cls, 'exception_class_follows_the_error_code_table', 'raises', note=getattr(cls, '__name__', str(cls)))
+            return
+        ctx.cover('returned')
+        ctx.prove(z3.And(z3.Not(raises(0)), z3.Not(raises(1))), 'a_reported_failure_that_the_policy_raises_for_is_raised', 'raises')
+        ctx.prove(z3.And(period_ok(0), period_ok(1)), 'every_period_carries_the_status_and_iteration_count_reported_for_it', 'ensures')
+        r = out.value
+        ok = isinstance(r, tuple) and len(r) == 3 and all(isinstance(x, list) and len(x) == 2 for x in r)
+        ctx.prove(z3.BoolVal(ok), 'returns_labels_positions_flags_with_one_entry_per_period', 'ensures')
+        if ok:
+            labels, indexes, solved = r
+            ctx.prove(z3.And(V.to_int_term(indexes[0]) == 1, V.to_int_term(indexes[1]) == 2, V.z3_of(labels[0]) == z3.Select(env.span.arr, 1), V.z3_of(labels[1]) == z3.Select(env.span.arr, 2)),
+                      'labels_and_positions_are_those_of_the_range', 'ensures')
+            for i in range(2):
+                sv = solved[i]
+                tv = V.truth(sv) if sv is not None else None
+                ctx.prove(z3.BoolVal(tv is not None) if tv is None else ((tv if not isinstance(tv, bool) else z3.BoolVal(tv)) == conv[i]), f'solved_flag_{i}_is_true_iff_the_period_converged', 'ensures')
+
+
+_fs = FortranSolve()
+_fs.shards = {'default-range': 6, 'explicit-range': 6}
+CONTRACTS.append(_fs)
